@@ -121,3 +121,24 @@ impl std::fmt::Display for VInt { fn fmt(&self, f: &mut std::fmt::Formatter) -> 
 impl std::fmt::Display for VFloat { fn fmt(&self, f: &mut std::fmt::Formatter) -> std::fmt::Result { std::fmt::Display::fmt(&self.0, f) } }
 impl std::str::FromStr for VInt { type Err = (); fn from_str(s: &str) -> Result<Self, ()> { s.parse::<i64>().map(VInt).map_err(|_| ()) } }
 impl std::str::FromStr for VFloat { type Err = (); fn from_str(s: &str) -> Result<Self, ()> { s.parse::<f64>().map(VFloat).map_err(|_| ()) } }
+
+::vstd::prelude::verus! {
+// ---- assumed: a String is determined by its character sequence
+#[verifier::external_body]
+pub broadcast proof fn axiom_string_ext(a: String, b: String)
+    ensures #[trigger] a@ == #[trigger] b@ ==> a == b
+{}
+#[verifier::external_body]
+pub broadcast proof fn axiom_vec_value_ext(a: Vec<Value>, b: Vec<Value>)
+    ensures #[trigger] a@ == #[trigger] b@ ==> a == b
+{}
+// derived PartialEq of the crate's enums (structural; floats by IEEE ==)
+pub assume_specification [<Value as PartialEq>::eq](a: &Value, b: &Value) -> (r: bool) ensures r == value_eq(*a, *b);
+pub assume_specification [<Operator as PartialEq>::eq](a: &Operator, b: &Operator) -> (r: bool) ensures r == op_eq(*a, *b);
+pub assume_specification [<Value as Clone>::clone](v: &Value) -> (r: Value) ensures r == *v;
+pub assume_specification [<Operator as Clone>::clone](v: &Operator) -> (r: Operator) ensures r == *v;
+pub assume_specification [<EvalexprError as Clone>::clone](v: &EvalexprError) -> (r: EvalexprError) ensures r == *v;
+pub assume_specification [<Token as Clone>::clone](v: &Token) -> (r: Token) ensures r == *v;
+pub assume_specification [<PartialToken as Clone>::clone](v: &PartialToken) -> (r: PartialToken) ensures r == *v;
+pub assume_specification [<Node as Clone>::clone](v: &Node) -> (r: Node) ensures r == *v;
+} // verus!
